@@ -25,7 +25,7 @@ func init() {
 			StatesMean:  "distinct (program, rendering) pairs compared with the canonical rendering; transitions = parses + real Next calls",
 			Assumptions: []string{"small-scope hypothesis on program size", "traces of site-deviated renderings are not walked when the parsed dialogues are deeply equal (the runner is a deterministic function of the parsed dialogue: C09)"},
 		},
-		QuickBudget: 75 * time.Second, ThoroughBudget: 14 * time.Minute, CrashIsViolation: true,
+		QuickBudget: 180 * time.Second, ThoroughBudget: 14 * time.Minute, CrashIsViolation: true,
 		Run: runC08,
 	})
 }
